@@ -31,7 +31,7 @@ RULE = ("(a) grooves of every parametric class (20 classes, feasible catalogue p
         "the groove; (b) rolls on these grooves with nominal radius log-uniform 1.2..100 x the groove size, contact length "
         "log-uniform 1e-3..0.9 of the minimal radius or absent, ROLL_SURFACE_DISCRETIZATION_COUNT 2..24 or the default; query "
         "points inside the grid: nodes, nodes +- 1 ulp, uniform; (c) spline polylines: symmetric and asymmetric, with and "
-        "without horizontal face runs, 3..12 interior vertices, lengths log-uniform, refined by 1..30 collinear insertions "
+        "without horizontal face runs, with and without contacts with the face line in between, 3..12 interior vertices, lengths log-uniform, refined by 1..30 collinear insertions "
         "(all segments / left flank only / one segment only / face runs, parameter uniform or clustered at a vertex). "
         "non-trivial = pad angle != 0, a changed sample count, a contact length, or a refinement; distinct by rounded inputs.")
 ASSUMPTIONS = [
@@ -88,6 +88,10 @@ CORPUS_SPLINES = [
     {"points": [[-3, 0], [-2, 0], [-1, 1], [1, 1], [2, 0], [3, 0]],
      "refined": [[-3, 0], [-2.5, 0], [-2, 0], [-1, 1], [1, 1], [1.5, 0.5], [2, 0], [3, 0]]},
     {"points": [[0, 0], [1, 2], [5, 1], [6, 0]], "refined": [[0, 0], [0.25, 0.5], [0.5, 1], [1, 2], [5, 1], [6, 0]]},
+    # two V-shaped grooves side by side / a vertex between two contacts with the face line (boundary stripping)
+    {"points": [[0, 0], [1, 1], [2, 0], [3, 1], [4, 0]], "refined": [[0, 0], [0.5, 0.5], [1, 1], [2, 0], [3, 1], [4, 0]]},
+    {"points": [[0, 0], [1, 1], [2, 0.5], [3, 0], [4, 0.5], [5, 0], [6, 1], [7, 0]], "refined": None},
+    {"points": [[-2, 0], [-1, 0], [0, 1], [1, 0], [2, 0]], "refined": [[-2, 0], [-1.5, 0], [-1, 0], [0, 1], [0.5, 0.5], [1, 0], [2, 0]]},
 ]
 
 
@@ -283,7 +287,31 @@ def _grid_queries(rng, xs, zs, n):
     return qs
 
 
+class _InterpolationRaised(Exception):
+    pass
+
+
+def _si(roll, x, z):
+    """roll.surface_interpolation at one point inside the grid; an exception from inside the implementation is reported"""
+    try:
+        return float(roll.surface_interpolation(x, z)[0, 0])
+    except Exception as ex:
+        import traceback
+        if any("/pyroll/" in f.filename for f in traceback.extract_tb(ex.__traceback__)):
+            raise _InterpolationRaised(f"{type(ex).__name__}: {ex}") from ex
+        raise
+
+
 def _oracle_roll(ctx, desc, rdesc, g, roll, queries, symmetric_z=True):
+    try:
+        return _oracle_roll_(ctx, desc, rdesc, g, roll, queries, symmetric_z)
+    except _InterpolationRaised as ex:
+        ctx.violation("surface-interpolation-raises-inside-grid",
+                      f"surface_interpolation raised for a point inside the grid: {ex}", {"groove": desc, "roll": rdesc})
+        return None
+
+
+def _oracle_roll_(ctx, desc, rdesc, g, roll, queries, symmetric_z=True):
     import numpy as np
     rp = {"groove": desc, "roll": rdesc}
     cp = np.asarray(g.contour_points, dtype=float)
@@ -328,14 +356,25 @@ def _oracle_roll(ctx, desc, rdesc, g, roll, queries, symmetric_z=True):
                       f"grid node (vertex {k}, x index {j}): x={xs[j]!r}, surface_y={Y[k, j]!r}, contour ordinate {cp[k, 1]!r}, "
                       f"max_radius {R!r}: distance from the roll axis {math.sqrt(max(lhs[k, j], 0))!r} instead of {R - cp[k, 1]!r}",
                       dict(rp, vertex=k, xi=j))
-    if not (np.all(np.diff(xs) > 0) and np.all(np.diff(zs) > 0)):
+    # symmetric in rolling direction / interpolable at all: the abscissa grid is pyroll's own construction
+    if not np.array_equal(xs, -xs[::-1]):
+        ctx.violation("surface-x-not-symmetric", f"surface_x is not symmetric about the high point: {xs[:3].tolist()} ... "
+                      f"{xs[-3:].tolist()}", rp)
+        return None
+    if not np.all(np.diff(xs) > 0):
+        ctx.violation("surface-x-not-ascending", "surface_x is not strictly ascending: the surface cannot be interpolated", rp)
+        return None
+    if not np.all(np.diff(zs) > 0):
+        # a contour that is not strictly ascending in z (possible for hand-made polylines): if the implementation cannot
+        # interpolate its own grid at a point inside it, that is reported; otherwise the roll is skipped
+        _si(roll, 0.0, float(zs[len(zs) // 2]))
         ctx.count("roll-grid-not-ascending")
         return None
     # interpolation: exact at the nodes
     idx = [(int(ctx.rng.randrange(len(xs))), int(ctx.rng.randrange(len(zs)))) for _ in range(12)] + \
           [(i0, 0), (i0, len(zs) - 1), (0, len(zs) // 2), (len(xs) - 1, len(zs) // 2)]
     for (j, k) in idx:
-        v = float(roll.surface_interpolation(xs[j], zs[k])[0, 0])
+        v = _si(roll, xs[j], zs[k])
         if not abs(v - Y[k, j]) <= tol * 1e-2:
             ctx.violation("interpolation-not-exact-at-node",
                           f"surface_interpolation at node (x index {j}, vertex {k}) gives {v!r}, grid value {Y[k, j]!r}",
@@ -343,14 +382,14 @@ def _oracle_roll(ctx, desc, rdesc, g, roll, queries, symmetric_z=True):
             break
     # symmetric in rolling and width direction; at the high point it is the contour polyline
     for (x, z) in queries:
-        v = float(roll.surface_interpolation(x, z)[0, 0])
-        vx = float(roll.surface_interpolation(-x, z)[0, 0])
+        v = _si(roll, x, z)
+        vx = _si(roll, -x, z)
         if not abs(v - vx) <= tol:
             ctx.violation("interpolation-not-symmetric-x", f"surface_interpolation({x!r}, {z!r}) = {v!r} but at -x: {vx!r}",
                           dict(rp, x=x, z=z))
             break
         if symmetric_z:
-            vz = float(roll.surface_interpolation(x, -z)[0, 0])
+            vz = _si(roll, x, -z)
             if not abs(v - vz) <= tol:
                 ctx.violation("interpolation-not-symmetric-z", f"surface_interpolation({x!r}, {z!r}) = {v!r} but at -z: {vz!r}",
                               dict(rp, x=x, z=z))
@@ -383,6 +422,10 @@ def _random_polyline(rng):
         xs = sorted(rng.uniform(-0.49, 0.49) * w for _ in range(n))
         inner = [(x, d * rng.uniform(0.05, 1)) for x in xs]
     inner = [p for i, p in enumerate(inner) if i == 0 or p[0] - inner[i - 1][0] > 1e-6 * w]
+    touch = rng.random() < 0.15
+    if touch and not sym:
+        # the contour touches the face line in between (grooves side by side): some vertices have both neighbours at 0
+        inner = [(x, 0.0 if i % 2 == 1 else y) for i, (x, y) in enumerate(inner)]
     pts = [(-w / 2, 0.0)] + inner + [(w / 2, 0.0)]
     faces = rng.random() < 0.5
     if faces:
@@ -391,7 +434,7 @@ def _random_polyline(rng):
             pr = pl
         pts = [(-w / 2 - pl, 0.0)] + pts + [(w / 2 + pr, 0.0)]
     pts = [[x + off, y] for x, y in pts]
-    return {"points": pts, "symmetric": sym and off == 0.0, "faces": faces, "scale": s}
+    return {"points": pts, "symmetric": sym and off == 0.0, "faces": faces, "scale": s, "touching": bool(touch and not sym)}
 
 
 def _refine(rng, pts):
@@ -569,7 +612,7 @@ def _batch_roll(batch, desc, rdesc, g, roll, grid, queries, rng):
         i, j = rng.randrange(len(xs)), rng.randrange(len(zs))
         batch.add(f"gridat {i} {j}", "scalar", dict(what=f"surface_y[{j}, {i}]", real=float(Y[j, i]), tol=1e-9 * R, replay=rp))
     for (x, z) in queries[:8]:
-        real = float(roll.surface_interpolation(x, z)[0, 0])
+        real = _si(roll, x, z)
         batch.add(f"interp {bits(x)} {bits(z)}", "scalar",
                   dict(what=f"surface_interpolation({x!r}, {z!r})", real=real, tol=1e-9 * R, replay=dict(rp, x=x, z=z)))
 
@@ -748,7 +791,6 @@ def _groove_case(ctx, desc, batch, with_model, roll_budget):
         roll, rdesc = _make_roll(ctx.rng, g, cp, desc)
         if not np.all(np.diff(cp[:, 0]) > 0):
             ctx.count("contour-not-z-monotone")
-            continue
         with _ConfigOverride(ROLL_SURFACE_DISCRETIZATION_COUNT=rdesc["nx"]):
             xs = np.asarray(roll.surface_x, dtype=float)
             queries = _grid_queries(ctx.rng, xs, cp[:, 0], 14)
@@ -780,6 +822,8 @@ def _spline_case(ctx, sdesc, batch, with_model):
     ctx.case(["spline", [[round(a, 12), round(b, 12)] for a, b in sdesc["points"]], sdesc.get("mode"),
               len(sdesc.get("refined") or [])], nontrivial=bool(sdesc.get("refined")))
     ctx.count("spline:" + ("symmetric" if sdesc.get("symmetric") else "asymmetric"))
+    if sdesc.get("touching"):
+        ctx.count("spline:touching-face-line-inside")
     if sdesc.get("mode"):
         ctx.count("refine:" + sdesc["mode"])
     if g is None:
@@ -819,11 +863,11 @@ def run(ctx):
         _groove_case(ctx, dict(d, pad_mode="30" if d["kwargs"].get("pad_angle") else "0"), batch, with_model, 1)
     for s in CORPUS_SPLINES:
         _spline_case(ctx, dict(s, mode="corpus"), batch, with_model)
-    n_g = ctx.budget(220, 2500)
+    n_g = ctx.budget(220, 6000)
     for i in range(n_g):
         desc = _random_groove_desc(rng)
-        _groove_case(ctx, desc, batch, with_model and i < ctx.budget(70, 300), 1 if i % 2 == 0 else 0)
-    n_s = ctx.budget(400, 6000)
+        _groove_case(ctx, desc, batch, with_model and i < ctx.budget(70, 600), 1 if i % 2 == 0 else 0)
+    n_s = ctx.budget(400, 15000)
     for i in range(n_s):
         sdesc = _random_polyline(rng)
         if rng.random() < 0.25:
@@ -831,7 +875,7 @@ def run(ctx):
             sdesc["usable_width"] = w * rng.uniform(0.5, 0.95)
         if rng.random() < 0.8:
             sdesc["refined"], sdesc["mode"] = _refine(rng, sdesc["points"])
-        _spline_case(ctx, sdesc, batch, with_model and i < ctx.budget(80, 400))
+        _spline_case(ctx, sdesc, batch, with_model and i < ctx.budget(80, 800))
     if with_model:
         _batch_formulas(ctx, batch, ctx.c10_info)
         _run_batch(ctx, batch)
